@@ -749,5 +749,98 @@ theorem accepted_consistent {env : Env} {f : FileCfg} {c : CliOpts} {e : Effecti
       intro h0; subst h0; simp [isSimpleId] at hsim
     exact reportCommodityOf_strict h4 hne
 
+/-! ### `contradictions`, in the "rejected ⇒ `.err`" form -/
+
+/-- the overlaid value of each key, as the documentation describes it -/
+def strictSpec (f : FileCfg) (c : CliOpts) : Bool := c.strict.getD f.strict
+def commoditySpec (f : FileCfg) (c : CliOpts) : Option String :=
+  match c.reportCommodity with
+  | some n => some n
+  | none => f.commodity
+def lookupSpec (env : Env) (f : FileCfg) (c : CliOpts) : Option Lookup :=
+  match c.lookupType with
+  | some s => Lookup.parse s
+  | none =>
+    match priceFrom env f.price with
+    | .ok (_, lt) => some lt
+    | _ => none
+def exportsSpec (f : FileCfg) (c : CliOpts) : Outcome (List ExportT) :=
+  toExportTargets (c.exports.getD f.exportTargets)
+
+theorem spec_of_ok {env : Env} {f : FileCfg} {c : CliOpts} {e : Effective} (h : effective env f c = .ok e) :
+    strictSpec f c = e.strict ∧ commoditySpec f c = e.commodity ∧ lookupSpec env f c = some e.lookup ∧
+    exportsSpec f c = .ok e.exports := by
+  obtain ⟨w1, _, _, w4, w5, w6, _, _⟩ := cli_wins h
+  obtain ⟨a1, _, _, a4, a5, a6, _, _⟩ := file_applies h
+  refine ⟨?_, ?_, ?_, ?_⟩
+  · unfold strictSpec
+    cases hc : c.strict with
+    | some v => simp [w1 v hc]
+    | none => simp [a1 hc]
+  · unfold commoditySpec
+    cases hc : c.reportCommodity with
+    | some v => simp [w5 v hc]
+    | none => simp [a5 hc]
+  · unfold lookupSpec
+    cases hc : c.lookupType with
+    | some v => simp [w6 v hc]
+    | none => obtain ⟨db, hdb⟩ := a6 hc; simp [hdb]
+  · unfold exportsSpec
+    cases hc : c.exports with
+    | some v => simp [w4 v hc]
+    | none => simp [a4 hc]
+
+/-- every rejected combination is an error (inside the domain of the model): option sets the clap
+    attributes exclude; a file `Config::from` rejects, whatever the options; `--price.before` without
+    `given-time` and `given-time` without `--price.before`; an unparsable `--price.before`; price
+    conversion without a report commodity; strict mode with an undeclared equity account or report commodity;
+    an unreadable price file -/
+theorem contradictions {env : Env} {f : FileCfg} {c : CliOpts} (hdom : namesSimple f c = true) :
+    (Rejected c → effective env f c = .err) ∧
+    (configFrom env f = .err → effective env f c = .err) ∧
+    (c.priceBefore.isSome = true → lookupSpec env f c ≠ some .givenTime → effective env f c = .err) ∧
+    (c.priceBefore = none → lookupSpec env f c = some .givenTime → effective env f c = .err) ∧
+    (∀ ts, c.priceBefore = some ts → env.tsOk ts = false → effective env f c = .err) ∧
+    (commoditySpec f c = none → lookupSpec env f c ≠ some .none → effective env f c = .err) ∧
+    (strictSpec f c = true → (∃ l, exportsSpec f c = .ok l ∧ ExportT.equity ∈ l) → f.equityAccount ∉ f.accounts →
+        effective env f c = .err) ∧
+    (strictSpec f c = true → (∃ n, commoditySpec f c = some n ∧ n ∉ f.commodities) → effective env f c = .err) := by
+  have key : (∀ e, effective env f c = .ok e → False) → effective env f c = .err := by
+    intro hno
+    cases hE : effective env f c with
+    | ok e => exact (hno e hE).elim
+    | err => rfl
+    | undef => exact absurd hE (no_undef hdom)
+  refine ⟨?_, ?_, ?_, ?_, ?_, ?_, ?_, ?_⟩
+  · intro hr; apply key; intro e he
+    have := (effective_ok he).2.1
+    rw [rejected_clap hr] at this; cases this
+  · intro hc; apply key; intro e he
+    obtain ⟨_, _, cfg, _, _, hcfg, _⟩ := effective_ok he
+    rw [hc] at hcfg; cases hcfg
+  · intro hb hl; apply key; intro e he
+    have := (accepted_consistent he).1.mp hb
+    rw [(spec_of_ok he).2.2.1, this] at hl; exact hl rfl
+  · intro hb hl; apply key; intro e he
+    rw [(spec_of_ok he).2.2.1] at hl
+    have := (accepted_consistent he).1.mpr (Option.some.inj hl)
+    rw [hb] at this; cases this
+  · intro ts hb hts; apply key; intro e he
+    have := ((accepted_consistent he).2.1 ts hb).1
+    rw [hts] at this; cases this
+  · intro hcm hl; apply key; intro e he
+    obtain ⟨_, s2, s3, _⟩ := spec_of_ok he
+    rw [s3] at hl
+    have hne : e.lookup ≠ .none := fun h0 => hl (by rw [h0])
+    have := ((accepted_consistent he).2.2.1 hne).1
+    rw [← s2, hcm] at this; cases this
+  · intro hst ⟨l, hl, hmem⟩ hacc; apply key; intro e he
+    obtain ⟨s1, _, _, s4⟩ := spec_of_ok he
+    rw [s4] at hl; cases hl
+    exact hacc ((accepted_consistent he).2.2.2.1 (by rw [← s1]; exact hst) hmem)
+  · intro hst ⟨n, hn, hnot⟩; apply key; intro e he
+    obtain ⟨s1, s2, _, _⟩ := spec_of_ok he
+    exact hnot ((accepted_consistent he).2.2.2.2 (by rw [← s1]; exact hst) n (by rw [← s2]; exact hn))
+
 end C19
 end Tackler
